@@ -244,12 +244,9 @@ func RunSeq(alpha []*regattapb.Command, c Case) (vs []viol, outcome string, nont
 	if err := inst.Sync(); err != nil {
 		return append(vs, viol{"sync-error", err.Error()}), sb.String(), nontrivial
 	}
-	pv, obs2 := readProbes(inst, m, probeBounds, probeBounds[:3], 4)
+	pv, _ = readProbes(inst, m, probeBounds, probeBounds[:3], 1) // full form only: the other forms read the same iterator
 	for _, v := range pv {
 		vs = append(vs, viol{"after-flush/" + v.sig, v.detail})
-	}
-	if obs2 != obs {
-		vs = append(vs, viol{"after-flush/reads-differ-from-reads-before-the-flush", fmt.Sprintf("before: %s after: %s", obs, obs2)})
 	}
 	closed = true
 	if err := inst.Close(); err != nil {
@@ -263,12 +260,9 @@ func RunSeq(alpha []*regattapb.Command, c Case) (vs []viol, outcome string, nont
 	if idx2 != m.Applied {
 		vs = append(vs, viol{"after-reopen/applied-index-mismatch", fmt.Sprintf("open returned %d, model %d", idx2, m.Applied)})
 	}
-	pv, obs3 := readProbes(inst2, m, probeBounds, probeBounds[:3], 4)
+	pv, _ = readProbes(inst2, m, probeBounds, probeBounds[:3], 1)
 	for _, v := range pv {
 		vs = append(vs, viol{"after-reopen/" + v.sig, v.detail})
-	}
-	if obs3 != obs {
-		vs = append(vs, viol{"after-reopen/reads-differ-from-reads-before-the-restart", fmt.Sprintf("before: %s after: %s", obs, obs3)})
 	}
 	return vs, sb.String(), nontrivial
 }
@@ -357,7 +351,7 @@ func Run(r *evid.Run) {
 		depth = 4
 	}
 	r.Check = "c01"
-	r.Rule(fmt.Sprintf("(a) every command sequence of length 0..%d over a %d-command alphabet on keys {a,ab,b} (prefix-related) and values {'',1,2}, each applied one-entry-per-call and all-in-one-call on a fresh real FSM, every result and 67 probe reads + both indices compared with a sorted-map model, the probes repeated after a memtable flush (Sync) and after close + reopen (same answers required); (b) 3 contents over a 14-key adversarial alphabet x every range delete over all bound pairs x 4 flag combinations followed by every range read over all bound pairs in 3 forms. A case is non-trivial when a command changed the model state or returned a response; distinct = distinct (results, probe answers) renderings", depth, len(alpha)))
+	r.Rule(fmt.Sprintf("(a) every command sequence of length 0..%d over a %d-command alphabet on keys {a,ab,b} (prefix-related) and values {'',1,2}, each applied one-entry-per-call and all-in-one-call on a fresh real FSM, every result and 67 probe reads + both indices compared with a sorted-map model, the full-form probes repeated after a memtable flush (Sync) and after close + reopen against the same model; (b) 3 contents over a 14-key adversarial alphabet x every range delete over all bound pairs x 4 flag combinations followed by every range read over all bound pairs in 3 forms. A case is non-trivial when a command changed the model state or returned a response; distinct = distinct (results, probe answers) renderings", depth, len(alpha)))
 	total := par.SeqCount(len(alpha), depth)
 	r.Extra("alphabet", describe(alpha, seqAll(len(alpha))))
 	done := par.For(total*2, r.Expired, func(i int64) {
